@@ -642,7 +642,7 @@ def c06(tier):
     for ty, src in (("int8_t", "RsV"), ("uint16_t", "RsV"), ("int32_t", "RsV"), ("int64_t", "RssV"), ("uint64_t", "RssV")):
         for h in ("a++", "a--", "({ a = a + 3; a; })", "(a++ + 1)"):
             for sink in (f"JUMP({h});", f"mem_store_u32({h}, RtV);", f"mem_store_u64(RtV, {h});", f"mem_store_u8(RtV, {h});",
-                         f"PeV = {h};", f"RyyV = {h};", f"RyV = clz32({h});", f"HEX_REG_ALIAS_LR = {h};",
+                         f"PeV = {h};", f"RddV = {h};", f"RdV = clz32({h});", f"HEX_REG_ALIAS_LR = {h};",
                          f"if (RuV) {{ JUMP({h}); }}"):
                 out.append(f"{{ {ty} a = {src}; RxV = 1; {sink} RzV = RzV + a; }}")
     return out
